@@ -654,6 +654,14 @@ type patGen struct {
 	bound     map[string]bool // declaration form: names already bound (a duplicate is an early error)
 	usesO     bool
 	hasRst    bool
+	// headTDZ: the sources stand in the head of a for-of / for-await loop that declares the pattern with
+	// let / const. The head expression is evaluated in a scope in which the loop's bindings exist but are
+	// never initialised, so a closure created there that mentions a name bound by the pattern can only ever
+	// throw a ReferenceError (temporal dead zone). esbuild documents that it does not model TDZ errors
+	// (lowering moves the declaration into the loop body, which takes the head expression out of the
+	// binding's scope); such programs are outside the domain of this check (DESIGN.md 1: TDZ-dependent
+	// behaviour is never generated), so the sources do not mention a key variable that the pattern binds.
+	headTDZ bool
 }
 
 // The source objects are built without computed keys in the literal: V8 calls an accessor that follows a
@@ -880,6 +888,15 @@ func (g *patGen) arrPat(depth int) string {
 func (g *patGen) source() string {
 	switch g.n("source", 10) {
 	case 0:
+		if g.headTDZ && g.bound["k"] {
+			// see headTDZ: `k` inside the loop head would be the loop's own uninitialised binding
+			if !g.bound["k2"] {
+				g.tag("source:getter-mutates-key-var")
+				return `{ get a() { log("get a"); k2 = "a"; return 1; }, b: 2, c: 3 }`
+			}
+			g.tag("source:getter-mutates-counter")
+			return `{ get a() { log("get a"); cnt++; return 1; }, b: 2, c: 3 }`
+		}
 		g.tag("source:getter-mutates-key-var")
 		return `{ get a() { log("get a"); k = "b"; return 1; }, b: 2, c: 3 }`
 	case 1:
@@ -923,6 +940,11 @@ func genPat(rt *rapid.T) (string, []string) {
 	if g.hasRst {
 		g.tag("pattern:object-rest")
 	}
+	forkw := ""
+	if pos == "for-of-decl" || pos == "for-await-decl" {
+		forkw = g.pick("forkw", "var", "let", "const")
+		g.headTDZ = forkw != "var"
+	}
 	src := g.source()
 	// what to log afterwards: every bound name plus the aliased variables
 	seen := map[string]bool{}
@@ -949,8 +971,7 @@ func genPat(rt *rapid.T) (string, []string) {
 	case "assign-expr":
 		body = "var s0 = " + src + ";\nlog(\"same\", (" + pat + " = s0) === s0);\n" + logLocal
 	case "for-of-decl":
-		kw := g.pick("forkw", "var", "let", "const")
-		body = "for (" + kw + " " + pat + " of [" + src + ", " + g.source() + "]) { " + logLocal + " fns.push(() => [" + local + "]); }\nfor (var f of fns) log(\"closure\", f());"
+		body = "for (" + forkw + " " + pat + " of [" + src + ", " + g.source() + "]) { " + logLocal + " fns.push(() => [" + local + "]); }\nfor (var f of fns) log(\"closure\", f());"
 	case "for-of-assign":
 		body = "for (" + pat + " of [" + src + ", " + g.source() + "]) { " + logLocal + " }"
 	case "for-in-decl":
@@ -975,8 +996,7 @@ func genPat(rt *rapid.T) (string, []string) {
 		body = "try { throw " + src + "; } catch (" + pat + ") { " + logLocal + " }"
 	case "for-await-decl":
 		async = true
-		kw := g.pick("forkw", "var", "let", "const")
-		body = "for await (" + kw + " " + pat + " of [" + src + ", Promise.resolve(" + g.source() + ")]) { " + logLocal + " }"
+		body = "for await (" + forkw + " " + pat + " of [" + src + ", Promise.resolve(" + g.source() + ")]) { " + logLocal + " }"
 	case "for-await-assign":
 		async = true
 		body = "for await (" + pat + " of [" + src + "]) { " + logLocal + " }"
